@@ -234,6 +234,37 @@ def table(ctx, nsock):
     ctx.prove(rows_match(per, expected_rows(socks, holders, kind, only_pid=11), True), "per-process-rows", detail=f"kind={kind} got={sorted(map(str, per))}")
 
 
+@harness("C11.threads", quick=[dict(P=1, kind="tcp")], thorough=[dict(P=2, kind="tcp"), dict(P=1, kind="all"), dict(P=1, kind="unix")], timeout_ms=5000)
+def threads(ctx, P, kind):
+    """the system-wide call and a per-process call running at once (source-line granularity, at most P pre-emptions): each
+    returns exactly what it returns alone -- the calls do not see each other's filter or owner table"""
+    from psv import sched
+
+    k = simk.Kernel(ctx)
+    simk.system_files(k)
+    socks = [dict(table="tcp", inode=5000, state=10, lport=22, rport=0, utype=1, path=""), dict(table="unix", inode=5001, state=7, lport=0, rport=0, utype=1, path="/run/b.sock")]
+    holders = {}
+    for pid, ino in ((10, 5000), (11, 5001)):
+        simk.full_process(k, pid)
+        for name in [n for n in k.links if n.startswith(f"/proc/{pid}/fd/")]:
+            del k.links[name]
+        k.dirs[f"/proc/{pid}/fd"] = ["3"]
+        k.links[f"/proc/{pid}/fd/3"] = f"socket:[{ino}]"
+        holders[(pid, 3)] = ino
+    k.dirs["/proc"] = ["10", "11", "self", "net", "stat"]
+    render_tables(k, socks)
+    S = sched.Scheduler(ctx, budget=P, files={simk.REPO + "/psutil/_pslinux.py"})
+    with k.installed(extra=[(_common, "supports_ipv6", lambda: True)]):
+        p11 = psutil.Process(11)
+        res = S.run([lambda: psutil.net_connections(kind), lambda: p11.net_connections(kind)])
+    for i in (0, 1):
+        ctx.prove(res[i][0] == "ok", "threads-no-exception", detail=f"thread {i}: {res[i][1]!r} pre-emptions {S.trace}")
+    if res[0][0] == "ok":
+        ctx.prove(rows_match(res[0][1], expected_rows(socks, holders, kind), False), "threads-rows-exact", detail=f"system-wide: {sorted(map(str, res[0][1]))} pre-emptions {S.trace}")
+    if res[1][0] == "ok":
+        ctx.prove(rows_match(res[1][1], expected_rows(socks, holders, kind, only_pid=11), True), "threads-rows-exact", detail=f"per-process: {sorted(map(str, res[1][1]))} pre-emptions {S.trace}")
+
+
 # ---- (c) arbitrary kind strings ---------------------------------------------------------------------------------------------
 
 KIND_WITNESSES = ["", "l", "net", "cp6", ", ", "tcp, udp", "all ", " all", "ALL", "inet44", "unix\n", "tcp\x00", "i", "4", "udp,"]
